@@ -282,8 +282,8 @@ func (c *Case) hashes() string {
 func (c *Case) body() string {
 	p := c.Pushes[0]
 	switch c.Op {
-	case "RA":
-		return fmt.Sprintf("RA %s %d %s %s %s", common.Hex(p.DG), p.SZ, b2s(p.Comb), c.Lim, encScript(p.Script))
+	case "RA", "FA":
+		return fmt.Sprintf("%s %s %d %s %s %s", c.Op, common.Hex(p.DG), p.SZ, b2s(p.Comb), c.Lim, encScript(p.Script))
 	case "CB":
 		return fmt.Sprintf("CB %d %s %d %s %s %s", c.BufSz, common.Hex(p.DG), p.SZ, b2s(p.Comb), c.Lim, encScript(p.Script))
 	case "CW":
@@ -335,6 +335,9 @@ func (c *Case) line() string {
 		return "SX " + b
 	}
 	l := b[:i] + " " + c.hashes() + b[i:]
+	if c.Op == "FA" { // content.FetchAll over a scripted fetcher = ReadAll of the fetched stream
+		l = "RA" + l[2:]
+	}
 	if c.Obs != "" {
 		l += " OBS " + c.Obs
 	}
@@ -353,7 +356,7 @@ func decodeBody(body string) *Case {
 	f := strings.Fields(body)
 	c := &Case{Op: f[0]}
 	switch f[0] {
-	case "RA":
+	case "RA", "FA":
 		c.Lim = f[4]
 		c.Pushes = []Push{{DG: common.UnHex(f[1]), SZ: atoi(f[2]), Comb: f[3] == "1", Script: decScript(f[5])}}
 	case "CB":
@@ -592,7 +595,14 @@ func runRA(id string, c *Case) string {
 	r := newReader(p)
 	var b []byte
 	var err error
-	if pv := guard(func() { b, err = content.ReadAll(source(r, c.Lim), descOf(p)) }); pv != nil {
+	read := func() { b, err = content.ReadAll(source(r, c.Lim), descOf(p)) }
+	if c.Op == "FA" {
+		fetcher := content.FetcherFunc(func(context.Context, ocispec.Descriptor) (io.ReadCloser, error) {
+			return io.NopCloser(source(r, c.Lim)), nil
+		})
+		read = func() { b, err = content.FetchAll(ctx, fetcher, descOf(p)) }
+	}
+	if pv := guard(read); pv != nil {
 		fail(id, "size-panic", fmt.Sprintf("ReadAll panicked for Size %d: %v", p.SZ, pv), c)
 		return "PANIC"
 	}
@@ -1425,7 +1435,7 @@ func runCase(c *Case) {
 	id := run.NewID()
 	var obs string
 	switch c.Op {
-	case "RA":
+	case "RA", "FA":
 		obs = runRA(id, c)
 	case "CB":
 		obs = runCB(id, c)
@@ -2010,7 +2020,11 @@ func main() {
 	for i := 0; i < n; i++ {
 		switch k := r.Intn(20); {
 		case k < 3:
-			runCase(genSingle(r, "RA"))
+			c := genSingle(r, "RA")
+			if r.Chance(1, 3) {
+				c.Op = "FA"
+			}
+			runCase(c)
 		case k < 6:
 			runCase(genSingle(r, "CB"))
 		case k < 8:
@@ -2062,7 +2076,7 @@ func main() {
 
 	// coverage floors: a stream that produced nothing is a broken check, not a pass
 	var missing []string
-	for _, k := range []string{"op:RA", "op:CB", "op:VR", "op:ST", "op:CC", "op:PF", "op:PX", "op:SX", "op:CW",
+	for _, k := range []string{"op:RA", "op:FA", "op:CB", "op:VR", "op:ST", "op:CC", "op:PF", "op:PX", "op:SX", "op:CW",
 		"store:mem", "store:lim", "store:oci", "store:olim", "store:file", "store:ocistore", "store:memstore",
 		"store:fileD", "store:fileC", "store:fileI", "store:fileF",
 		"input:good", "input:good+trailing", "input:bad-digest", "input:digest-mismatch", "input:negative-size", "input:short-or-failed",
